@@ -394,12 +394,19 @@ pub fn history_strat() -> BoxedStrategy<HistoryCase> {
 
 fn run_history<S>(state: S, os: &OShape, group: usize, c: &HistoryCase, rec: &Rec, ctx: &Ctx) -> Result<(), String>
 where
-    S: State + Serialize,
+    S: State + Serialize + Clone,
 {
     if state.score().is_none() {
         rec.class("history/start-invalid-skipped");
         return Ok(());
     }
+    let reader = match statejson::ParamReader::new(&state) {
+        Some(r) => r,
+        None => {
+            rec.class("history/unexpected-basis-skipped");
+            return Ok(());
+        }
+    };
     let probe = Probe::new(state, c.kt_start == 0.);
     let model = probe.model.clone();
     {
@@ -421,20 +428,18 @@ where
         }
         v
     };
-    let oblique = is_oblique(group);
     let mut scored = 0u64;
     for (params, ret) in steps.iter() {
         if ret.is_none() {
             continue;
         }
-        // basis order of the package: length, ratio, (angle), x, y, orientation
-        let p = if oblique && params.len() == 6 {
-            Params { length: params[0], ratio: params[1], angle: params[2], x: params[3], y: params[4], phi: params[5] }
-        } else if !oblique && params.len() == 5 {
-            Params { length: params[0], ratio: params[1], angle: PI / 2., x: params[2], y: params[3], phi: params[4] }
-        } else {
-            rec.class("history/unexpected-basis-skipped");
-            return Ok(());
+        // which handle drives which field was discovered by probing, not assumed from the order of generate_basis()
+        let p = match reader.params(params) {
+            Some(p) => p,
+            None => {
+                rec.class("history/unexpected-basis-skipped");
+                return Ok(());
+            }
         };
         rec.eval(1);
         scored += 1;
